@@ -2,6 +2,7 @@ import NixModel.Index
 import NixModel.NDArray
 import NixModel.Spec.C01
 import NixModel.Dump
+import NixModel.Drive.StoreModel
 namespace Nix.Drive
 
 /-- the axis a trace is currently talking about (index family) -/
@@ -28,11 +29,14 @@ structure StoreSt where
   sinceDump : List (String × Bool) := []          -- ops since the last dump: (op name, did the implementation accept it?)
   slotIds : List (String × String) := []          -- slot ↦ id, from the answers to mk / get
   order : List (String × List String) := []       -- container key "kind@parentId" ↦ ids in creation order (never shrinks)
-  everSeen : List (String × String) := []         -- id ↦ "kind name created" as first observed
+  everSeen : List (String × String) := []
+  slotInfo : List (String × (String × String × String)) := []   -- slot ↦ (kind, parent slot, name token), from mk
+  lastDeleted : Option String := none             -- the slot whose entity the last mutating op deleted (answer `ok 1`)         -- id ↦ "kind name created" as first observed
 
 structure DState where
   axis : AxisDesc := .none
   arr : Option ArrSt := none
   store : StoreSt := {}
+  smodel : StoreModel.MState := {}             -- the Lean store model replayed alongside (store family)
 
 end Nix.Drive
